@@ -188,7 +188,8 @@ impl NavigationState {
 
     pub fn get_navigation_mathml_id(&self, mathml: Element) -> (String, usize) {
         if self.position_stack.is_empty() {
-            return (mathml.attribute_value("id").unwrap().to_string(), 0);
+            // no id: nothing has been set yet (the initial <math/> has no id)
+            return (mathml.attribute_value("id").unwrap_or("").to_string(), 0);
         } else {
             let (position, _) = self.top().unwrap();
             return (position.current_node.clone(), position.current_node_offset);
